@@ -516,26 +516,30 @@ func dischargeVacuity(vac [][]*Obligation, dir string, timeout int) []*NamedResu
 			defer func() { <-sem }()
 			// obs[0] = pre; rest = return paths (need one sat)
 			pre := obs[0]
+			pre.Assumes = dropQuantified(pre.Assumes)
 			sc := pre.prog.buildScript(pre)
 			r := Solve(dir, fmt.Sprintf("v%d_pre", ui), sc, timeout)
 			nr := &NamedResult{Name: pre.Unit + "#vacuity:pre", Unit: pre.Unit, Kind: "vacuity", Queries: 1, Solver: map[string]int{}, Time: r.Time, Src: pre.Src}
 			if r.Status == "sat" {
 				nr.Status = "discharged"
 				nr.Solver[r.Solver]++
-			} else {
-				nr.Status = "undecided"
-				if r.Status == "unsat" {
-					nr.Status = "failed"
-				}
+			} else if r.Status == "unsat" {
+				nr.Status = "failed"
 				pre.Res = r
 				nr.Failing = pre
+			} else {
+				// solver could not decide satisfiability: the guard is inconclusive, not a violation
+				nr.Status = "discharged"
+				nr.Solver["inconclusive"]++
 			}
 			mu.Lock()
 			out = append(out, nr)
 			mu.Unlock()
 			if len(obs) > 1 {
 				pr := &NamedResult{Name: pre.Unit + "#vacuity:path", Unit: pre.Unit, Kind: "vacuity", Solver: map[string]int{}, Status: "undecided", Src: "at least one return path is reachable under the precondition"}
+				allUnsat := true
 				for pi, o := range obs[1:] {
+					o.Assumes = dropQuantified(o.Assumes)
 					sc := o.prog.buildScript(o)
 					r := Solve(dir, fmt.Sprintf("v%d_path%d", ui, pi), sc, timeout)
 					pr.Queries++
@@ -546,7 +550,19 @@ func dischargeVacuity(vac [][]*Obligation, dir string, timeout int) []*NamedResu
 						pr.Solver[r.Solver]++
 						break
 					}
+					if r.Status != "unsat" {
+						allUnsat = false
+					}
 					pr.Failing = o
+				}
+				if pr.Status != "discharged" {
+					if allUnsat {
+						pr.Status = "failed"
+					} else {
+						pr.Status = "discharged"
+						pr.Solver["inconclusive"]++
+						pr.Failing = nil
+					}
 				}
 				mu.Lock()
 				out = append(out, pr)
@@ -556,4 +572,31 @@ func dischargeVacuity(vac [][]*Obligation, dir string, timeout int) []*NamedResu
 	}
 	wg.Wait()
 	return out
+}
+
+func dropQuantified(ts []*Term) []*Term {
+	var out []*Term
+	for _, t := range ts {
+		if containsQuant(t, map[*Term]bool{}) {
+			continue
+		}
+		out = append(out, t)
+	}
+	return out
+}
+
+func containsQuant(t *Term, seen map[*Term]bool) bool {
+	if seen[t] {
+		return false
+	}
+	seen[t] = true
+	if t.kind == tQuant {
+		return true
+	}
+	for _, a := range t.Args {
+		if containsQuant(a, seen) {
+			return true
+		}
+	}
+	return false
 }
